@@ -38,6 +38,8 @@ def resolve(t):
         t = t.ref
     if isinstance(t, tuple) and t[0] == "list":
         return ("list", resolve(t[1]))
+    if isinstance(t, tuple) and t[0] == "tuple":
+        return ("tuple", tuple(resolve(x) for x in t[1]))
     return t
 
 
@@ -52,6 +54,8 @@ def unify(a, b, node):
         return a
     if isinstance(a, tuple) and isinstance(b, tuple) and a[0] == b[0] == "list":
         return ("list", unify(a[1], b[1], node))
+    if isinstance(a, tuple) and isinstance(b, tuple) and a[0] == b[0] == "tuple" and len(a[1]) == len(b[1]):
+        return ("tuple", tuple(unify(x, y, node) for x, y in zip(a[1], b[1])))
     if a != b:
         fail(node, "type mismatch: %s vs %s" % (show_type(a), show_type(b)))
     return a
@@ -77,8 +81,7 @@ def parse_type(s):
         return s
     if s.startswith("list[") and s.endswith("]"):
         return ("list", parse_type(s[5:-1]))
-    if s.startswith("fn(") and "->" in s:
-        args, ret = s[3:].rsplit(")->", 1)
+    def split_top(args):
         parts, depth, cur = [], 0, ""
         for ch in args:
             if ch == "," and depth == 0:
@@ -87,7 +90,12 @@ def parse_type(s):
                 depth += ch in "[("; depth -= ch in "])"; cur += ch
         if cur.strip():
             parts.append(cur)
-        return ("fn", tuple(parse_type(p) for p in parts), parse_type(ret))
+        return parts
+    if s.startswith("tuple[") and s.endswith("]"):
+        return ("tuple", tuple(parse_type(p) for p in split_top(s[6:-1])))
+    if s.startswith("fn(") and "->" in s:
+        args, ret = s[3:].rsplit(")->", 1)
+        return ("fn", tuple(parse_type(p) for p in split_top(args)), parse_type(ret))
     raise Untranslatable("bad type in spec: %r" % s)
 
 
@@ -185,6 +193,33 @@ def assigned_names(stmts):
     return out
 
 
+MUTATORS = ("append", "extend", "insert", "pop", "reverse", "sort", "clear", "remove")
+
+
+def mutates_lists(stmts):
+    for st in stmts:
+        for n in ast.walk(st):
+            if isinstance(n, (ast.Assign, ast.AugAssign)):
+                tg = n.targets if isinstance(n, ast.Assign) else [n.target]
+                for t in tg:
+                    for x in ast.walk(t):
+                        if isinstance(x, ast.Subscript):
+                            return True
+            if isinstance(n, ast.AugAssign):
+                return True if not isinstance(n.target, ast.Name) else mutates_lists_aug(n)
+            if isinstance(n, ast.Call) and isinstance(n.func, ast.Attribute) and n.func.attr in MUTATORS:
+                return True
+            if isinstance(n, ast.Delete):
+                return True
+    return False
+
+
+def mutates_lists_aug(n):
+    # `x += e` on a name is in place only if x is a list.  Guess from the right-hand side; a wrong guess is safe:
+    # "no" is re-checked with the real type in s_AugAssign, "yes" only switches the strict aliasing rules on
+    return isinstance(n.value, (ast.List, ast.ListComp, ast.Call))
+
+
 def contains(stmts, kinds):
     for s in stmts:
         for n in ast.walk(s):
@@ -223,6 +258,15 @@ class FunTrans(object):
         self.params = []          # (python name, type)
         self.kwparams = {}        # name -> type
         self.alias_ok = fspec.get("alias_ok", False)
+        self.checked_div = fspec.get("checked_div", False)
+        self.catching_zero_div = 0
+        self.callee_raises = set()
+        # a function that never updates a list in place may give a list a second name
+        if not mutates_lists(fdef.body):
+            self.alias_ok = True
+            self.pure_lists = True
+        else:
+            self.pure_lists = False
 
     # ---- names
     def fresh(self):
@@ -359,6 +403,9 @@ class FunTrans(object):
             fn = {"Add": "oadd", "Sub": "osub", "Mult": "omul", "Div": "odiv"}.get(op)
             if fn is None:
                 fail(node, "float operator %s not understood" % op)
+            if op == "Div" and (self.checked_div or self.catching_zero_div):
+                v = self.fresh()      # ZeroDivisionError is observable here: the division is checked
+                return b + ["do %s <- odiv_chk K %s %s ;;" % (v, l, r)], v, "float"
             return b, "(%s K %s %s)" % (fn, l, r), "float"
         # ratio with ratio / int
         if tl == "int":
@@ -457,6 +504,15 @@ class FunTrans(object):
             b += be; xs.append(x); t = unify(t, te, node)
         return b, "[%s]" % "; ".join(xs), ("list", t)
 
+    def e_Tuple(self, node, env):
+        b, xs, ts = [], [], []
+        for e in node.elts:
+            be, x, t = self.expr(e, env)
+            b += be; xs.append(x); ts.append(t)
+        if len(xs) < 2:
+            fail(node, "tuple with fewer than two components")
+        return b, "(%s)" % ", ".join(xs), ("tuple", tuple(ts))
+
     def e_Subscript(self, node, env):
         if isinstance(node.slice, ast.Slice):
             return self.slice_expr(node, env)
@@ -520,6 +576,14 @@ class FunTrans(object):
                 if not isinstance(val, int) or val == 0:
                     fail(it, "range() step must be a non-zero int literal")
             return b, "(zrange %s %s %s)" % tuple(xs), "int"
+        if isinstance(it, ast.Call) and isinstance(it.func, ast.Name) and it.func.id == "enumerate" and "enumerate" not in env:
+            if it.keywords or len(it.args) != 1:
+                fail(it, "enumerate() arguments")
+            b1, x1, t1 = self.expr(it.args[0], env)
+            t1 = resolve(t1)
+            if not (isinstance(t1, tuple) and t1[0] == "list"):
+                fail(it, "enumerate() of a non-list")
+            return b1, "(combine (zrange 0 (zlen %s) 1) %s)" % (x1, x1), ("tuple", ("int", t1[1]))
         if isinstance(it, ast.Call) and isinstance(it.func, ast.Name) and it.func.id == "zip" and "zip" not in env:
             if it.keywords or len(it.args) != 2:
                 fail(it, "zip() arguments")
@@ -596,6 +660,7 @@ class FunTrans(object):
                 ba, x, ta = self.expr(a, env)
                 unify(ta, t, node); b += ba; xs.append(x)
             v = self.fresh()
+            self.callee_raises |= set(EXC.values())       # an argument function may raise anything
             return b + ["do %s <- %s %s ;;" % (v, mangle(f.id), " ".join(xs))], v, ft[2]
         name = None
         if isinstance(f, ast.Name):
@@ -652,6 +717,7 @@ class FunTrans(object):
             else:
                 xs.append("(%s__default_%s K)" % (fn["coqname"], k))
         v = self.fresh()
+        self.callee_raises |= set(fn.get("raises", ()))
         return b + ["do %s <- %s K %s ;;" % (v, fn["coqname"], " ".join(xs))], v, fn["rtype"]
 
     def record_kwdefault(self, key, dnode, env):
@@ -753,6 +819,13 @@ class FunTrans(object):
         fail(node, "list() of a %s" % show_type(t))
 
     p_tuple = p_list
+
+    def p_sum(self, node, env):
+        (b, x, t), = self.args1(node, env)
+        t = resolve(t)
+        if t == ("list", "float"):
+            return b, "(gsum K %s)" % x, "float"
+        fail(node, "sum() of a %s" % show_type(t))
 
     def p_deepcopy(self, node, env):
         (b, x, t), = self.args1(node, env)
@@ -874,6 +947,22 @@ class FunTrans(object):
             lines = list(b)
             lines += self.store(tgt, x, t, vnode, env, s)
             return self.emit(lines, ind) + self.block(rest, env, ctx, ind)
+        if isinstance(tgt, ast.Tuple) and all(isinstance(e, ast.Name) for e in tgt.elts):
+            t = resolve(t)
+            if not (isinstance(t, tuple) and t[0] == "tuple" and len(t[1]) == len(tgt.elts)):
+                fail(s, "unpacking of a %s" % show_type(t))
+            if not isinstance(vnode, ast.Call):
+                fail(s, "tuple unpacking is only understood for the result of a call")
+            names = [e.id for e in tgt.elts]
+            for n, tt in zip(names, t[1]):
+                env[n] = tt
+            self.rebound = self.rebound | set(names)
+            patt = "'(%s)" % ", ".join(mangle(n) for n in names)
+            if b and b[-1].startswith("do %s <- " % x) and x.startswith("v_"):
+                lines = b[:-1] + ["do %s <- %s" % (patt, b[-1][len("do %s <- " % x):])]
+            else:
+                lines = b + ["let %s := %s in" % (patt, x)]
+            return self.emit(lines, ind) + self.block(rest, env, ctx, ind)
         fail(s, "assignment target not understood")
 
     def store(self, tgt, x, t, vnode, env, s):
@@ -948,6 +1037,8 @@ class FunTrans(object):
         if isinstance(s.target, ast.Name):
             t0 = resolve(env.get(s.target.id, None)) if s.target.id in env else None
             if isinstance(t0, tuple) and t0[0] == "list":
+                if self.pure_lists:
+                    fail(s, "in-place list extension in a function whose lists may be aliased")
                 self.check_mutable(s.target.id, env, s)      # `a += b` extends the list object in place
         b, x, t = self.expr(load, env)
         return self.assign_to(s.target, b, x, t, load, s, rest, env, ctx, ind)
@@ -1126,8 +1217,96 @@ class FunTrans(object):
         out += self.block(rest, env, ctx, ind + "  ")
         return close(out, "", "end")
 
-    # ---- try (only: a body without assignments / returns, handlers that re-raise)
+    # ---- try
+    def handler_kinds(self, h, s):
+        if isinstance(h.type, ast.Name) and h.type.id in EXC:
+            return [EXC[h.type.id]]
+        if h.type is None or (isinstance(h.type, ast.Name) and h.type.id == "Exception"):
+            return None
+        fail(s, "exception class not understood")
+
     def s_Try(self, s, rest, env, ctx, ind):
+        if s.orelse or s.finalbody:
+            fail(s, "try ... else / finally")
+        if not assigned_names(s.body) and not contains(s.body, (ast.Return,)):
+            return self.s_Try_unit(s, rest, env, ctx, ind)
+        # a body that assigns: the handlers see the state before the try, which is only right if the body is one simple
+        # statement (nothing is stored when its evaluation raises) or assigns fresh variables only
+        if contains(s.body, (ast.Return,)) or any(contains(h.body, (ast.Return,)) for h in s.handlers):
+            fail(s, "return inside try")
+        single = len(s.body) == 1 and isinstance(s.body[0], (ast.Assign, ast.AugAssign))
+        if not single:
+            for n in assigned_names(s.body):
+                if n in env:
+                    fail(s, "try body updates the variable %s that is bound before the try" % n)
+        kinds = [self.handler_kinds(h, s) for h in s.handlers]
+        catches_zero = any(k is None or "ZeroDivisionError" in k for k in kinds)
+        # which exceptions can the body raise?  (probe translation)
+        ends = []
+
+        def probe(env2, ind2):
+            ends.append(env2)
+            return []
+        save, saver, savec = self.counter, self.rebound, self.callee_raises
+        self.callee_raises = set()
+        self.catching_zero_div += 1 if catches_zero else 0
+        ptext = self.block(s.body, env, Ctx(None, probe, ctx.rtype), "")
+        self.catching_zero_div -= 1 if catches_zero else 0
+        can_raise = raises_of_text(ptext) | self.callee_raises
+        self.counter, self.rebound, self.callee_raises = save, saver, savec | self.callee_raises
+        live = []
+        seen = set()
+        for h, k in zip(s.handlers, kinds):
+            ks = [x for x in (sorted(set(EXC.values())) if k is None else k) if x not in seen]
+            seen |= set(ks)
+            ks = [x for x in ks if x in can_raise]
+            if ks:
+                live.append((h, ks))
+        if not live:
+            # no handler can ever run for the argument types of the spec: the try is transparent
+            return [ind + "(* try: the handlers are unreachable for the argument types of the spec *)"] + \
+                self.block(list(s.body) + list(rest), env, ctx, ind)
+        names = assigned_names(list(s.body) + [st for h, _ in live for st in h.body])
+        envs = [ends[0]]
+        for h, ks in live:
+            ends2 = []
+            save, saver = self.counter, self.rebound
+            self.handler_exc = ks[0]
+            self.block(h.body, env, Ctx(None, lambda e2, i2: (ends2.append(e2), [])[1], ctx.rtype), "")
+            self.handler_exc = None
+            self.counter, self.rebound = save, saver
+            if ends2:
+                envs.append(ends2[0])
+        jn = [n for n in names if all(n in e for e in envs)]
+        jt = {}
+        for n in jn:
+            t = envs[0][n]
+            for e in envs[1:]:
+                t = unify(t, e[n], s)
+            jt[n] = t
+        tup, pat = self.pat(jn)
+        jctx = Ctx(None, lambda env2, ind2: [ind2 + "GOk %s" % tup], ctx.rtype)
+        self.catching_zero_div += 1 if catches_zero else 0
+        body = self.block(s.body, env, jctx, ind + "    ")
+        self.catching_zero_div -= 1 if catches_zero else 0
+        out = [ind + "do %s <- gtry (" % pat] + close(body, ")")
+        e = self.fresh()
+        out += [ind + "  (fun %s => match %s with" % (e, e)]
+        for h, ks in live:
+            for x in ks:
+                self.handler_exc = x
+                hb = self.block(h.body, env, jctx, ind + "      ")
+                self.handler_exc = None
+                out += [ind + "    | %s =>" % x] + hb
+        out += [ind + "    | %s => GErr %s" % (e, e), ind + "    end) ;;"]
+        env = dict(env)
+        for n in jn:
+            env[n] = jt[n]
+        self.rebound = self.rebound | set(jn)
+        return out + self.block(rest, env, ctx, ind)
+
+    # try with a body without assignments / returns, handlers that re-raise
+    def s_Try_unit(self, s, rest, env, ctx, ind):
         if s.orelse or s.finalbody:
             fail(s, "try ... else / finally")
         if assigned_names(s.body) or contains(s.body, (ast.Return,)):
@@ -1209,10 +1388,25 @@ class FunTrans(object):
                 unify(t, t0, d)
             defaults[n] = x
         info = {"coqname": coqname, "params": self.params, "kwparams": self.kwparams, "kworder": kworder,
+                "raises": sorted(raises_of_text(body) | self.callee_raises),
                 "kwnodefault": [k for k in kworder if self.kwdefaults[k] is None],
                 "defaults": defaults, "rtype": rt,
                 "fntype": ("fn", tuple(t for _, t in self.params) + tuple(self.kwparams[k] for k in kworder), rt)}
         return "\n".join(lines), info
+
+
+def raises_of_text(lines):
+    """the exception kinds a generated block can raise by itself (calls are accounted for separately)"""
+    txt = "\n".join(lines)
+    out = set()
+    if "znth " in txt or "zset " in txt:
+        out.add("IndexError")
+    if "zdiv_chk " in txt or "odiv_chk " in txt:
+        out.add("ZeroDivisionError")
+    for k in set(EXC.values()):
+        if "GErr %s" % k in txt:
+            out.add(k)
+    return out
 
 
 def zlit(n):
@@ -1234,7 +1428,7 @@ def close(lines, suffix, newline=None):
     return lines
 
 
-PRIMITIVES = ("len", "abs", "float", "int", "round", "min", "max", "list", "tuple", "deepcopy")
+PRIMITIVES = ("len", "abs", "float", "int", "round", "min", "max", "list", "tuple", "deepcopy", "sum")
 
 
 # ----------------------------------------------------------------------------------------------- modules
